@@ -644,7 +644,9 @@ def directed_boundaries(ck, rng):
         if rng.random() < 0.4:
             f = S("filter", expr=("bin", "Or", ("bin", "Ne", _col("c"), ("lit", rng.choice([0, 1, 3]))), ("isnull", _col("c"), False)))
             pre.append(P.Step("filter", f.prql(), f.coq()))
-        pre.append(P.Step("select", "select {%s}" % ", ".join(tcols), "TSelect [%s]" % "; ".join("(None, ECol None %d%%N)" % P.nid(c) for c in tcols)))
+        # the select of ALL of t's columns declares them; in the reference semantics it is the identity that keeps the qualifier `t`
+        # (TExclude of a column t does not have), which the join condition refers to
+        pre.append(P.Step("select", "select {%s}" % ", ".join(tcols), "TExclude [(None, %d%%N)]" % P.nid("zz"), known=True))
         join = P.Step("join", "join %su %s" % (sd, on_p), "TJoin %s %d%%N U_COLS U_TABLE (%s)" % (side, P.nid("u"), on_c), side=side)
         read_right = rng.random() < 0.25
         keep = ["b", "c"] + (["d"] if read_right else [])
